@@ -589,12 +589,15 @@ PROPS = {
     },
     "C06": {
         "module": "DnsModel.Theorems.C06",
-        "theorems": [],
+        "theorems": ["Dns.C06.compress_spec", "Dns.C06.decompressed_pointerFree", "Dns.C06.compress_decompressed", "Dns.C06.roundtrip"],
         "families": [{"name": "compress-families", "quick": 0, "thorough": 0, "fixed": True}, {"name": "compress", "quick": 2500, "thorough": 150000}],
         "oracle": oracle_c06,
         "nontrivial": lambda c, a: a.startswith("ok"),
         "rule": "pointer-free accepted packets: random messages with a shared label pool plus the dictionary families (30..70 distinct suffixes, suffixes of 126..255 bytes, nesting 2..40, names beyond offset 16383, mixed-case duplicates in every name-bearing rdata, OPT in 4 positions)",
-        "level": "other", "explanation": "", "assumptions": [],
+        "level": "proof",
+        "explanation": "theorems: for every accepted packet whose names are all written without pointers (the outputs of decompression are such), the model of compress() succeeds; its output is no longer than the input, satisfies the acceptance policy, has the same header bytes and a byte-identical question, and its records are one by one those of the input up to the case of names: every owner / NS / CNAME / PTR / MX / SOA name decodes, under the validator's pointer discipline, to labels equal up to ASCII case, and type, class, TTL and all other data (OPT and its options) are identical; decompressing the output gives a packet related to the input in the same way. Proved through an invariant of the 32-entry suffix dictionary (every committed entry designates a place in the output where a name equal up to case decodes with the recorded depth < 16), the soundness of the case-insensitive comparison, and independence of the appended bytes from the output's contents (for the late data-length patch); "
+                       "correspondence: the real compress() is byte-identical to the model's on random messages and on the dictionary families",
+        "assumptions": ["'pointer-free' is the predicate PointerFree of Theorems/C06.lean (every name the library understands is a literal run of labels ended by the root byte)"],
     },
     "C07": {
         "module": "DnsModel.Theorems.C07",
@@ -732,8 +735,8 @@ MANIFEST_TEXT = {
             "note": NOTE, "technique": "Lean 4 proof (EDNS state tracking through the validator, bit lemmas, decoding lemmas) + model/implementation correspondence + div/mod oracle"},
     "C05": {"text": "Lean theorems for every accepted packet: decompression succeeds; its output is the header followed by the canonical pointer-free form of the question and of every record in wire order (same labels in every owner and NS/CNAME/PTR/MX/SOA name, fixed fields and all other data incl. OPT verbatim, data length recomputed); the output satisfies the acceptance policy (hence is accepted), its records have the same types and are their own canonical forms (no compression pointer in any name), a second decompression returns it unchanged, and every record boundary / the question / the end of the input is carried to the corresponding boundary of the output. Real output byte-identical to the model's on every generated accepted packet and boundary; the reference decoder compares the decoded messages.",
             "note": NOTE, "technique": "Lean 4 proof (walks as folds, canonical-form relation, translation invariance of the policy under copying, determinism of layouts) + model/implementation correspondence + reference decoder oracle"},
-    "C06": {"text": "Model of compress() with the 32-entry suffix dictionary (depth-tracked); real output byte-identical to the model's on random messages and on the dictionary families (31..70 suffixes, 126..255-byte suffixes, nesting to 40, offsets beyond 16383, mixed case, OPT anywhere); oracle checks acceptance, no growth, message equality up to case, question bytes. Emission lemmas (NameAt.mono/append/emit_ptr) are proved." + PENDING,
-            "note": NOTE, "technique": "model/implementation correspondence + reference decoder oracle + proved emission lemmas"},
+    "C06": {"text": "Lean theorems for every accepted pointer-free packet: compress() (model, with the 32-entry depth-tracked suffix dictionary) succeeds; the output is no longer than the input, satisfies the acceptance policy, keeps the 12 header bytes and the question byte for byte, and its records are one by one the input's up to the case of names - each name decodes under the validator's pointer discipline to labels equal up to ASCII case (so every pointer designates a name equal to the suffix it stands for), everything else including OPT is identical; decompressing the output gives the input up to name case. Invariant: every committed dictionary entry designates a place in the output where a name equal up to case decodes with the recorded depth (< 16 to be pointed at). Real output byte-identical to the model's on random messages and on the dictionary families (31..70 suffixes, 126..255-byte suffixes, nesting to 40, offsets beyond 16383, mixed case, OPT anywhere); oracle checks acceptance, no growth, message equality up to case, question bytes.",
+            "note": NOTE, "technique": "Lean 4 proof (dictionary invariant, emission lemmas, case-fold comparison soundness, parametricity in the output) + model/implementation correspondence + reference decoder oracle"},
     "C07": {"text": "Model of Renamer (replace_raw, per-type rdlen, OPT in place); real output byte-identical to the model's; oracle compares the decoded result with the specified renaming of the decoded input (matches at every depth, near-misses, case, growth past 255)." + PENDING,
             "note": NOTE, "technique": "model/implementation correspondence + reference decoder oracle"},
     "C08": {"text": "State-machine model (packet object + one cursor) of every mutator; after every operation of every script the real object's bytes, public fields, cache and cursor equal the model's, and the oracle re-derives the view from the bytes alone. By-design findings KF1-KF5 are waived only when KNOWN_FINDINGS lists them." + PENDING,
